@@ -289,18 +289,25 @@ package main
 // of the pipe is closed with the context's error (so that WriteBlock's reader
 // sees an error, never a clean EOF, and cannot rename a truncated temp file
 // into place); ctx.Err() is consulted at that point only on that branch.
-//@ func putWithPipe property C02,C01
+//@ func putWithPipe property C02,C01,C04
 //@   ghost sel int = 0 - 1
 //@   ghost cerr error = nil
 //@   at select#1: set sel = $index
 //@   calls Context.Err#1: requires sel == 2
 //@   calls Context.Err#1: set cerr = $r
 //@   calls PipeWriter.CloseWithError#1: requires sel == 2 ==> $0 == cerr
+//@   # whichever event ends the wait, its outcome is THE error of the Put: the
+//@   # copier's result, WriteBlock's result (a WriteBlock that gave up early -
+//@   # volume full, no temp file - must not be reported as success), or ctx.Err()
+//@   at assign err#1: assert sel == 0
+//@   at assign err#2: assert sel == 1
+//@   at assign err#3: assert sel == 2 && err == cerr
+//@   ensures sel != 2 && err != nil ==> result == err
 
 // The copier goroutine only copies the buffer into the pipe.  The write end is
 // closed in one place only - putWithPipe, with the error that ended the wait -
 // so that an aborted PUT can never look like a clean end of data to WriteBlock.
-//@ func putWithPipe$1 property C02,C01
+//@ func putWithPipe$1 property C02,C01,C04
 //@   only calls: io.Copy bytes.NewReader
 
 // --------------------------------------------------------------------- C19
@@ -446,7 +453,7 @@ package main
 //@   modifies nothing
 //@ func UnixVolume.Get property C01,C02
 //@   calls getWithPipe#1: requires $1 == loc && $2 == buf && $3 == iface(v)
-//@ func UnixVolume.Put property C02,C01
+//@ func UnixVolume.Put property C02,C01,C04
 //@   calls putWithPipe#1: requires $1 == loc && $2 == block && $3 == iface(v)
 //@ func UnixVolume.stat property C01,C02
 //@   calls osWithStats.Stat#1: requires $0 == path
